@@ -523,7 +523,20 @@ func runSets(family string, ops []mop, prog []step) (fail, clause, key string) {
 			id = len(ids)
 			ids[l.ID()] = id
 		}
-		fmt.Fprintf(&b, "%d:o%d:%s;", i, id, renderMap(*model[i]))
+		// which handles share one underlying Go map is part of the state (a later Set shows through)
+		var mid int
+		if mp := l.MapID(); mp != 0 {
+			k := fmt.Sprintf("map@%d", mp)
+			var ok2 bool
+			mid, ok2 = ids[k]
+			if !ok2 {
+				mid = len(ids)
+				ids[k] = mid
+			}
+		} else {
+			mid = -1
+		}
+		fmt.Fprintf(&b, "%d:o%d:m%d:%s;", i, id, mid, renderMap(*model[i]))
 	}
 	return "", "", b.String()
 }
